@@ -574,6 +574,9 @@ func c09r3(c *Ctx) {
 					}
 					continue
 				}
+				if pfDeadByFacts(p.FactsAt(cs.Call.Block())) {
+					continue // copy of the write under contradictory guards (never executes)
+				}
 				nTrue++
 				o := c.Ob(fn, "Paused=True", cs.Call.Instr, "Paused=True is reported only when the object's spec says paused (ObjectSet: and every remote phase reports Paused)")
 				x := c09ConditionsOwner(p, cs.Call.Common.Args[0])
@@ -605,6 +608,9 @@ func c09r3(c *Ctx) {
 			for _, rm := range conditionRemovals(fn) {
 				if rm.Type != "Paused" {
 					continue
+				}
+				if pfDeadByFacts(p.FactsAt(rm.Call.Block())) {
+					continue // copy of the removal under contradictory guards (never executes)
 				}
 				o := c.Ob(fn, "Paused-removed", rm.Call.Instr, "the Paused condition is removed only when the object's spec is not paused")
 				x := c09ConditionsOwner(p, rm.Call.Common.Args[0])
@@ -731,6 +737,15 @@ func c09r3(c *Ctx) {
 // or result 0 of a workspace function that counts phases whose Paused condition is true.
 func c09RemotePhasesPausedFact(p *Program, fn *ssa.Function, fs []Fact, x ssa.Value) (bool, string) {
 	var lastWhy string
+	// no remote phases at all on this path (`len(x.GetRemotePhases()) > 0` is known false): "every
+	// remote phase reports Paused" holds vacuously, the spec alone decides
+	for _, f := range fs {
+		if l, nonEmptyWhenTrue, ok := lenCmp(f.Cond); ok && f.Pol != nonEmptyWhenTrue {
+			if rp, _ := asCall(l); rp != nil && calleeName(rp.Common()) == "GetRemotePhases" && p.sameValue(callRecv(rp.Common()), x) {
+				return true, "F:len(" + p.describe(x) + ".GetRemotePhases()) > 0 (no remote phases)"
+			}
+		}
+	}
 	for _, f := range fs {
 		if !f.Pol {
 			continue
